@@ -51,6 +51,9 @@ type Config struct {
 	// the bridge has been running for a while: batch nonces on Ethereum and BSC continue from here (byte and word
 	// boundaries of the counter are a few batches away)
 	BatchNonceStart uint64 `json:"batch_nonce_start,omitempty"`
+	// a migration genesis: two batches of earlier days are still in flight on each EVM chain (only where replicas are
+	// compared: the C06 profile)
+	GenesisOutgoing bool `json:"genesis_outgoing,omitempty"`
 	// SignedSignerSetTxsWindow in blocks (0 = the default 10000, under which the pruning of old signer sets never runs in a simulated history)
 	SignerSetWindow uint64 `json:"signer_set_window,omitempty"`
 }
